@@ -297,7 +297,7 @@ theorem step_fseek (hP1 : entryLimit ≤ P.maxEntry)
     cases hf : findStampIdx (d.lines.map tsOf) ts with
     | some i =>
       obtain ⟨hi, hts⟩ := findStampIdx_some tsOf d.lines ts i hf
-      obtain ⟨dd, hseek⟩ := seekTS_found P tsOf ts d.lines hP1 ctx (hsmall d hdm) i hi hts (r.files.getD k {})
+      obtain ⟨dd, _, hseek⟩ := seekTS_found P tsOf ts d.lines hP1 ctx (hsmall d hdm) i hi hts (r.files.getD k {})
       rw [hseek]
       simp only [resOf]
       refine ⟨by first | trivial | rfl, ?_⟩
